@@ -86,6 +86,7 @@ typedef struct obs {
         int inputs_ok;        /* every registered input unchanged */
         char bad_buf[64];     /* name of first buffer that failed canary / input check */
         int static_changed;   /* number of changed bytes in library writable statics */
+        int static_nonbinding; /* ... of which not part of a word that now holds a library function address */
         char static_sym[64];  /* first changed symbol */
         uint64_t ret;
         uint64_t stack_used;  /* bytes of dead stack that no longer hold the prefill pattern */
